@@ -164,6 +164,13 @@ def check(run):
         reqs.append(dict(m="table", op="plot", lowx=fq(lowx), highx=fq(highx), steps=steps))
         plan.append((lowx, highx, steps))
     ans = lean_query(reqs)
+    # decimal (non-dyadic) ranges x every step count 1..N: the row count must be exactly `steps` however (highx-lowx)/steps rounds
+    # (expected abscissae computed here in exact rational arithmetic of the decimal values)
+    for (lo_s, hi_s) in (("0.0", "1.0"), ("1.0", "6.5"), ("0.1", "10.0"), ("0.5", "12.0"), ("0.3", "0.9")):
+        for steps in range(1, run.n(130, 600) + 1):
+            lo_q, hi_q = Fr(lo_s), Fr(hi_s)
+            plan.append((lo_q, hi_q, steps))
+            ans.append([fq(lo_q + Fr(i) * (hi_q - lo_q) / steps) for i in range(steps)])
     nb = 0
     for (lowx, highx, steps), a in zip(plan, ans):
         f = lambda x: 3.0 * x * x - x + 0.5  # noqa: E731
